@@ -88,10 +88,15 @@ InputsD == { [entry |-> e, idpInit |-> FALSE, artII |-> ai_, respII |-> r, assns
 InputsE == { [entry |-> "xml", idpInit |-> TRUE, artII |-> "in1", respII |-> r, assns |-> << Assn(a, nb, no, <<c1, c2>>) >>] :
                r \in Classes2, a \in Classes2, nb \in Classes2, no \in {"in1", "farIn"}, c1 \in Classes2, c2 \in Classes2 }
 
+\* Family Z: an assertion whose Subject carries NO SubjectConfirmation at all (schema-valid; the library accepts it) - the
+\* Conditions window and the IssueInstant bound hold for it like for any other
+InputsZ == { [entry |-> "xml", idpInit |-> i, artII |-> "in1", respII |-> r, assns |-> << Assn(a, nb, no, <<>>) >>] :
+               i \in BOOLEAN, r \in Classes2, a \in Classes2, nb \in Classes, no \in Classes }
+
 Inputs == CASE Family = "A" -> InputsA [] Family = "B" -> InputsB [] Family = "C" -> InputsC
             [] Family = "AB" -> InputsA \cup InputsB [] Family = "ABC" -> InputsA \cup InputsB \cup InputsC
             [] Family = "ABCD" -> InputsA \cup InputsB \cup InputsC \cup InputsD
-            [] Family = "ABCDE" -> InputsA \cup InputsB \cup InputsC \cup InputsD \cup InputsE
+            [] Family = "ABCDE" -> InputsA \cup InputsB \cup InputsC \cup InputsD \cup InputsE \cup InputsZ
 
 AbsOf(i, s) == [artII |-> AbsII(i.artII, s), respII |-> AbsII(i.respII, s),
                 assns  |-> [k \in DOMAIN i.assns |->
